@@ -129,7 +129,13 @@ func genLeaves(c *core.Ctx) []leaf {
 	}
 	nd := 1 + c.Rng.Intn(5)
 	for i := 0; i < nd; i++ {
-		switch c.Rng.Intn(7) {
+		switch c.Rng.Intn(10) {
+		case 7: // foreign keys that merely END with a recognised key
+			add(leaf{typ: t00, tag: `hardwire:"pa"`, kind: "decoy-foreign-suffix", decoy: true})
+		case 8:
+			add(leaf{typ: reflect.TypeOf(""), tag: `defaultvalue:"5" xprop:"c11.s" noprefix:"c11.s"`, kind: "decoy-foreign-suffix", decoy: true})
+		case 9:
+			add(leaf{typ: reflect.TypeOf(0), tag: `simytag:"v1" autowire:"" dlogger:""`, kind: "decoy-foreign-suffix", decoy: true})
 		case 0:
 			add(leaf{typ: reflect.TypeOf(""), tag: ``, kind: "decoy-untagged", decoy: true})
 		case 1:
@@ -430,19 +436,36 @@ func (p c11) compiled(c *core.Ctx) {
 	for _, h := range holders {
 		extra = append(extra, h)
 	}
+	l1, l2, localCheck := world.NewLocalTypeFixtures()
+	if c.Rng.Intn(2) == 0 {
+		extra = append([]any{l1, l2}, extra...)
+	} else {
+		extra = append(extra, l2, l1)
+	}
+	nameOf := func(v any) string {
+		if n, ok := v.(world.Node); ok && v != nil {
+			return n.DisplayName()
+		}
+		return ""
+	}
+	// the holder with the field-less "base" is also started alone first (same process: a cache keyed by
+	// type name would be primed by it)
+	if c.Rng.Intn(2) == 0 {
+		l0, _, _ := world.NewLocalTypeFixtures()
+		world.Start(&world.Scenario{}, world.Options{Extra: []any{l0}, NoTracer: true})
+	}
 	r := world.Start(g.Sc, world.Options{Extra: extra})
 	c.Count("starts", 1)
 	if r.Outcome() != "ok" {
 		c.Fail("", "compile-time embedded fixtures did not start: "+core.Short(r.OutcomeDetail(), 300), nil)
 		return
 	}
+	for _, problem := range localCheck(nameOf) {
+		c.Fail("", problem, nil)
+		return
+	}
 	for _, h := range holders {
-		for _, problem := range h.Check(func(v any) string {
-			if n, ok := v.(world.Node); ok && v != nil {
-				return n.DisplayName()
-			}
-			return ""
-		}) {
+		for _, problem := range h.Check(nameOf) {
 			c.Fail("", fmt.Sprintf("%T: %s", h, problem), nil)
 			return
 		}
